@@ -110,7 +110,7 @@ func checkC06(p *Prog, r *Report) {
 	for _, fn := range bidir {
 		rAnch.OK(fnName(fn), fn.Pos(), "admits both directions for one caller")
 	}
-	checkSameRequest(p, r, rReq, bidir)
+	checkSameRequest(p, r, rReq, bidir, admitters)
 }
 
 // checkPairingToken inspects the keys passed to the two admitting calls.
@@ -370,7 +370,7 @@ func isRandReader(v ssa.Value) bool {
 
 // checkSameRequest: the /io route's handler calls the bidirectional admitter
 // once, with its own ResponseWriter and its own request's Body.
-func checkSameRequest(p *Prog, r *Report, ru *Rule, bidir []*ssa.Function) {
+func checkSameRequest(p *Prog, r *Report, ru *Rule, bidir []*ssa.Function, admitters map[*ssa.Function]string) {
 	isBidir := func(f *ssa.Function) bool {
 		for _, b := range bidir {
 			if b == f {
@@ -417,6 +417,50 @@ func checkSameRequest(p *Prog, r *Report, ru *Rule, bidir []*ssa.Function) {
 			ru.OK(c, posOf(calls[0]), "writer and body of the handler's own request")
 		} else {
 			ru.Bad(c, posOf(calls[0]), "the two halves are not the response writer and body of the handler's own request")
+		}
+		/* And no other way into the broker: a one-directional admission
+		from this handler takes a key the client chose, which another
+		request can present as well. */
+		seen := map[*ssa.Function]bool{}
+		var via ssa.Instruction
+		var walk func(f *ssa.Function)
+		walk = func(f *ssa.Function) {
+			if nil == f || seen[f] || isBidir(f) || nil == f.Blocks {
+				return
+			}
+			seen[f] = true
+			for _, g := range withAnons(f) {
+				eachInstr(g, func(i ssa.Instruction) {
+					cc := callCommon(i)
+					if nil == cc {
+						return
+					}
+					callee := cc.StaticCallee()
+					if nil == callee {
+						if cf, _ := closureOf(cc.Value); nil != cf {
+							callee = cf
+						}
+					}
+					if nil == callee {
+						return
+					}
+					if _, isAdm := admitters[callee]; isAdm {
+						if nil == via {
+							via = i
+						}
+						return
+					}
+					if nil != callee.Pkg && strings.HasPrefix(callee.Pkg.Pkg.Path(), ModPath) {
+						walk(callee)
+					}
+				})
+			}
+		}
+		walk(rt.Handler)
+		if nil != via {
+			ru.Bad(c+":only-bidirectional", posOf(via), "the handler of %s also admits a single direction (%s) with a caller-chosen key: its halves can be paired with those of other requests", rt.Pattern, calleeName(callCommon(via)))
+		} else {
+			ru.OK(c+":only-bidirectional", rt.Pos, "no one-directional admission is reachable from the handler")
 		}
 	}
 	if 0 == n {
